@@ -193,20 +193,24 @@ pub fn decode_regular(rsm: RawSourceMap) -> Result<SourceMap> {
                 if nums.len() != 4 && nums.len() != 5 {
                     fail!(Error::BadSegmentSize(nums.len() as u32));
                 }
-                src_id = (i64::from(src_id) + nums[1]) as u32;
-                if src_id >= sources.len() as u32 {
-                    fail!(Error::BadSourceReference(src_id));
-                }
+                src_id = match i64::from(src_id).checked_add(nums[1]) {
+                    Some(id) if id >= 0 && id < sources.len() as i64 => id as u32,
+                    id => {
+                        fail!(Error::BadSourceReference(id.unwrap_or(-1) as u32));
+                    }
+                };
 
                 src = src_id;
                 src_line = (i64::from(src_line) + nums[2]) as u32;
                 src_col = (i64::from(src_col) + nums[3]) as u32;
 
                 if nums.len() > 4 {
-                    name_id = (i64::from(name_id) + nums[4]) as u32;
-                    if name_id >= names.len() as u32 {
-                        fail!(Error::BadNameReference(name_id));
-                    }
+                    name_id = match i64::from(name_id).checked_add(nums[4]) {
+                        Some(id) if id >= 0 && id < names.len() as i64 => id as u32,
+                        id => {
+                            fail!(Error::BadNameReference(id.unwrap_or(-1) as u32));
+                        }
+                    };
                     name = name_id;
                 }
             }
